@@ -46,7 +46,7 @@ func (s *stats) flush(r *vrun.Run) {
 // ---------------------------------------------------------------------------------------------
 // violation collector: failures are grouped by a primary signature (entry point, precondition class,
 // effect class); the two free dimensions of a failure (e.g. which kind, which message class) are
-// enumerated in the signature when the defect is specific to at most 3 values and collapsed to "many"
+// enumerated in the signature when the defect is specific to at most 2 values and collapsed to "many"
 // otherwise, so that a systematic break has one narrow signature and a kind-specific break names its kind.
 
 type failure struct {
@@ -127,7 +127,7 @@ func (c *collector) total() int64 {
 	return n
 }
 
-const collapseAt = 4
+const collapseAt = 3
 
 // emit turns the collected failures into Violation calls (one per resolved signature).
 func (c *collector) emit(r *vrun.Run) {
@@ -469,7 +469,7 @@ func (h *harness) evalChain(st *stats, sp Spec) {
 		h.col.add(failure{
 			primary: vrun.Sig{"ep": "commonerrors." + kf.fn, "pre": pre, "effect": effect, "via": via},
 			dims:    map[string]string{"kind": kindName(kf.accept[0]), "msg": string(sp.Steps[kf.step].MsgC)},
-			what: fmt.Sprintf("%s result %q is not recognised as %v (step %d of the chain)", kf.fn, kf.text, kindNames(kf.accept), kf.step+1),
+			what:    fmt.Sprintf("%s result %q is not recognised as %v (step %d of the chain)", kf.fn, kf.text, kindNames(kf.accept), kf.step+1),
 			witness: map[string]any{"type": "chain", "spec": sp, "failing_step": kf.step, "expected_kind": kindNames(kf.accept), "result_text": kf.text},
 		})
 		return
@@ -489,11 +489,13 @@ func (h *harness) evalChain(st *stats, sp Spec) {
 		}
 	}
 	shape := "single error"
-	if b.multi {
-		shape = "single error, multi-line message"
+	multi := strings.Contains(b.err.Error(), "\n") // judged on the text (a message may have been dropped on the way)
+	if multi {
+		shape = "single error, multi-line text"
+		st.add("chains_multiline(kind only)", 1)
 	}
 	h.roundTrip(st, b.err, []int{b.kind}, true, shape, b.class, witness)
-	if h.r.WantSample() && n >= 2 && !b.multi {
+	if h.r.WantSample() && n >= 2 && !multi {
 		ser, _ := commonerrors.SerialiseError(b.err)
 		d, _ := commonerrors.DeserialiseError(ser)
 		h.r.Sample(map[string]any{"spec": sp, "kind_given": kindName(b.kind), "error_text": clip(b.err.Error()), "serialised": clip(string(ser)), "deserialised_kinds": kindNames(kindsOf(d))})
@@ -548,7 +550,7 @@ func (h *harness) evalJoin(st *stats, js JoinSpec) {
 	j := errors.Join(errs...)
 	shape := fmt.Sprintf("join of %d", len(js.Parts))
 	if multi {
-		shape += ", multi-line message"
+		shape += ", a part has a multi-line message"
 	}
 	h.roundTrip(st, j, want, false, shape, class, func() any { return map[string]any{"type": "join", "spec": js} })
 }
